@@ -65,7 +65,7 @@ def squeeze(s):
 
 
 # ------------------------------------------------------------------ Loki side
-CPU_BUDGET = 1.5
+CPU_BUDGET = 0.5
 
 
 def parse(text, mode):
